@@ -231,7 +231,8 @@ func c02Schema() dyn.Schema {
 			{Name: "w1", K: 's', KT: 'u', Min: 1, Max: -1, RefTable: "Q", RefType: "weak"},
 			{Name: "ss", K: 's', KT: 's', Max: -1}, {Name: "m", K: 'm', KT: 's', VT: 's', Max: -1},
 			{Name: "bs", K: 's', KT: 's', Max: 3}, {Name: "bi", K: 's', KT: 'i', Min: 0, Max: 2},
-			{Name: "m1", K: 'm', KT: 's', VT: 's', Max: 1}}},
+			{Name: "m1", K: 'm', KT: 's', VT: 's', Max: 1},
+			{Name: "ims", K: 's', KT: 's', Max: -1, Immutable: true}, {Name: "imm", K: 'm', KT: 's', VT: 's', Max: -1, Immutable: true}}},
 		{Name: "C", Indexes: [][]string{{"k"}}, Cols: []val.Col{
 			{Name: "k", K: 'a', KT: 's'}, {Name: "v", K: 'a', KT: 'i'},
 			{Name: "friend", K: 'o', KT: 'u', RefTable: "Q", RefType: "weak"}}},
@@ -294,11 +295,36 @@ func c04Schema(g *gen.G, i int) dyn.Schema {
 
 // ---------------------------------------------------------------------------
 
+// c02Seed populates the C02 schema: parents sharing a child and a weakly referenced row, so that failing
+// transactions have references to move.
+func c02Seed(tg *txnGen) []TOp {
+	var ops []TOp
+	var qs, cs []string
+	for i := 0; i < 3; i++ {
+		q, c := tg.fresh(), tg.fresh()
+		qs, cs = append(qs, q), append(cs, c)
+		ops = append(ops,
+			TOp{Kind: "insert", Table: "Q", UUID: q, Row: map[string]val.Val{"name": val.VA(gen.AtomN('s', i))}},
+			TOp{Kind: "insert", Table: "C", UUID: c, Row: map[string]val.Val{"k": val.VA(gen.AtomN('s', i+1)), "friend": val.VSome(val.Uuid(q))}})
+	}
+	kids := [][]string{{cs[0]}, {cs[0], cs[1]}, {cs[2], cs[0]}}
+	for i := 0; i < 3; i++ {
+		ks := val.Val{K: 's'}
+		for _, k := range kids[i] {
+			ks.Set = append(ks.Set, val.Uuid(k))
+		}
+		ops = append(ops, TOp{Kind: "insert", Table: "P", UUID: tg.fresh(), Row: map[string]val.Val{
+			"name": val.VA(gen.AtomN('s', i)), "kids": ks, "w1": val.VS(val.Uuid(qs[i%2]), val.Uuid(qs[2]))}})
+	}
+	return ops
+}
+
 func driveC02(o opts) error {
 	p := txnProfile{prop: "C02", ncases: 120, ntxn: 6, maxOps: 5, shard: 30,
 		schemas: func(g *gen.G, i int) dyn.Schema { return c02Schema() },
 		tune:    func(tg *txnGen) { tg.pInvalid = 0.45; tg.dangling = 0.12; tg.pSelect = 0.1; tg.pWait = 0.1; tg.pool = 3 },
 		oracle:  oracleAtomic,
+		seed:    c02Seed,
 		nontriv: func(ops []TOp, ob tObs) bool {
 			// the failing operation is not the first and an earlier one changed a row
 			for i, r := range ob.Results {
